@@ -112,6 +112,20 @@ func e2eOptions(run *evid.Run, rng *rand.Rand, rounds int) int {
 				ro.RequireRecipientValidSince = time.Unix(int64(rng.Intn(2000000000)), 0).UTC()
 			}
 			from, to := fmt.Sprintf("from%d@x.test", mask), fmt.Sprintf("to%d@x.test", mask)
+			if mo.UTF8 {
+				// internationalised mailboxes: local part and domain
+				u := []string{"é", "ß", "à", "Å", "ą", "я", "…", "日", "😀", "ü"}
+				pick := func() string {
+					var sb strings.Builder
+					for i := 0; i < 1+rng.Intn(4); i++ {
+						sb.WriteString(u[rng.Intn(len(u))])
+						sb.WriteString([]string{"", "a", "-", "1"}[rng.Intn(4)])
+					}
+					return sb.String()
+				}
+				from = pick() + fmt.Sprint(mask) + "@" + pick() + ".test"
+				to = pick() + fmt.Sprint(mask) + "@x" + pick() + ".example"
+			}
 			errM := cl.Mail(from, mo)
 			var errR error
 			if errM == nil {
@@ -217,6 +231,24 @@ func init() {
 			str, want := runesToString(c.Str), runesToString(c.Wire)
 			var got, back string
 			var derr error
+			if c.Mode == "mbox" {
+				// c.Wire is the UTF-8 octet sequence Xtext.tla computes for local@domain
+				octs := make([]byte, len(c.Wire))
+				for i, o := range c.Wire {
+					octs[i] = byte(o)
+				}
+				addr := str + "@" + str
+				if string(octs) != addr {
+					evid.Inconclusive("Xtext.tla's UTF-8 of %q is %q", addr, octs)
+				}
+				for _, reverse := range []bool{true, false} {
+					mbox, _, perr := smtp.VerifParsePath("<"+addr+"> SMTPUTF8", reverse)
+					if perr != nil || mbox != addr {
+						run.Report(evid.Div{Prop: "C14", Key: "c14:mailbox:spec-case", Msg: fmt.Sprintf("mailbox %q (reverse-path=%v): the server's path parser returns %q (%v), Xtext.tla (ParseMailbox) the mailbox itself", addr, reverse, mbox, perr), Replay: c})
+					}
+				}
+				continue
+			}
 			switch c.Mode {
 			case "xtext":
 				got = smtp.VerifEncodeXtext(str)
@@ -275,6 +307,17 @@ func init() {
 						continue
 					}
 					s := "a" + string(rune(c)) + "z"
+					if c >= 0x80 {
+						// the same character inside a sender / recipient mailbox
+						addr := s + "@d" + string(rune(c)) + "q.test"
+						mbox, _, perr := smtp.VerifParsePath("<"+addr+">", cnt%2 == 0)
+						cnt++
+						if perr != nil || mbox != addr {
+							mu.Lock()
+							run.Report(evid.Div{Prop: "C14", Key: fmt.Sprintf("c14:mailbox:scalar:%x", addr[len(addr)-8]), Msg: fmt.Sprintf("mailbox %q with U+%04X: the server's path parser returns %q (%v)", addr, c, mbox, perr)})
+							mu.Unlock()
+						}
+					}
 					for _, mode := range []string{"u8x", "uni"} {
 						var w string
 						if mode == "u8x" {
